@@ -468,16 +468,42 @@ func c17Gen(cfg config, emit func(Case)) {
 	for i := 0; i < n; i++ {
 		in := []int64{30, 0, 2, 1}
 		k := 2 + rng.Intn(7)
-		stopped := false
+		// the generator follows the phases of the reconnection machine so that Start is only issued when the client is idle
+		// (a Start while an earlier reconnection dial is still in flight is outside the model)
+		phase, token, halted := 1, false, false // 0 idle, 1 up, 2 dial in flight
 		for j := 0; j < k; j++ {
 			l := []int64{2, 3, 3, 4, 4, 5, 1, 6, 7}[rng.Intn(9)]
-			if l == 1 && !stopped {
-				l = 2 // Start is only issued after a Stop
+			if l == 1 && phase != 0 {
+				l = 2
 			}
-			if l == 5 {
-				stopped = true
-			} else if l == 1 {
-				stopped = false
+			switch l {
+			case 1:
+				phase, token, halted = 1, false, false
+			case 2, 6, 7:
+				if phase == 1 {
+					if token {
+						phase, token = 0, false
+					} else {
+						phase = 2
+					}
+				}
+			case 3:
+				if phase == 2 && token {
+					phase, token = 0, false
+				}
+			case 4:
+				if phase == 2 {
+					if halted {
+						phase = 0
+					} else {
+						phase = 1
+					}
+				}
+			case 5:
+				if phase == 1 {
+					phase = 0
+				}
+				token, halted = !token, true
 			}
 			in = append(in, l)
 		}
